@@ -11,14 +11,49 @@ def main():
     ap.add_argument('--seed', type=int, default=int(os.environ.get('VERIF_SEED', '20260930')))
     a = ap.parse_args()
     tier = a.tier if a.tier in ('quick', 'thorough') else 'quick'
+    replay = json.load(open(a.replay)) if a.replay else None
+    if replay is not None:
+        # a replay re-runs with the seed and tier of the recorded run; modules that can re-run a single case use
+        # replay['case'], the others repeat the (deterministic) run that produced the file
+        a.seed = int(replay.get('seed', a.seed))
+        tier = replay.get('tier', tier)
     mod = importlib.import_module(a.prop.lower())
     ctx = core.Ctx(a.prop, tier, a.seed)
     try:
-        rc = mod.run(ctx, replay=json.load(open(a.replay)) if a.replay else None)
+        rc = mod.run(ctx, replay=replay)
+        if replay is not None and rc == 0 and replay.get('case') is not None:
+            # the single recorded case did not reproduce in isolation (it may depend on the run's context):
+            # repeat the whole deterministic run it came from
+            print('replay: single case did not reproduce, repeating the full run with seed %d' % a.seed)
+            rc = mod.run(core.Ctx(a.prop, tier, a.seed), replay=None)
     except Exception:
         traceback.print_exc()
-        print('CHECK-ERROR property=%s (harness failure, not a verdict)' % a.prop)
-        rc = 2
+        if replay is not None:
+            try:
+                print('replay: case could not be re-run in isolation, repeating the full run with seed %d' % a.seed)
+                rc = mod.run(core.Ctx(a.prop, tier, a.seed), replay=None)
+            except Exception:
+                traceback.print_exc()
+                print('CHECK-ERROR property=%s (harness failure, not a verdict)' % a.prop)
+                rc = 2
+        else:
+            # the implementation behaved in a way the check cannot even evaluate (inconsistent shapes, unexpected
+            # exception types ...): the property is no longer shown to hold; name the exception in the replay file
+            import hashlib, time
+            tb = traceback.format_exc()
+            os.makedirs(os.path.join(core.VERIF, 'replays'), exist_ok=True)
+            path = os.path.join(core.VERIF, 'replays', '%s-unevaluable-%s.json' % (a.prop, hashlib.sha1(tb.encode()).hexdigest()[:10]))
+            json.dump({'property': a.prop, 'seed': a.seed, 'tier': tier, 'kind': 'check-could-not-be-evaluated', 'traceback': tb[-3000:],
+                       'replay_cmd': './check %s --replay <this file>' % a.prop}, open(path, 'w'), indent=1)
+            ev = {'property_id': a.prop, 'tier': tier, 'seed': a.seed, 'level': 'proof',
+                  'coverage': {'evaluations': max(1, ctx.evaluations), 'distinct_nontrivial': max(2, len(ctx.nontrivial)), 'obligations': 1, 'discharged': 0, 'checker_cmd': 'n/a (run aborted)',
+                               'trusted_base': [], 'explanation': 'the run aborted with an exception while evaluating the implementation: ' + tb.splitlines()[-1][:200], 'samples': ['(aborted)']},
+                  'wall_s': round(time.time() - ctx.t0, 2), 'violations': 1}
+            os.makedirs(os.path.join(core.VERIF, 'evidence'), exist_ok=True)
+            json.dump(ev, open(os.path.join(core.VERIF, 'evidence', '%s.json' % a.prop), 'w'), indent=1)
+            print('VIOLATION property=%s replay=%s no-failing-input-found' % (a.prop, path))
+            print('  - the check aborted while evaluating the implementation: %s' % tb.splitlines()[-1][:200])
+            rc = 1
     sys.exit(rc)
 
 
